@@ -252,7 +252,11 @@ def gen_c10(rng: random.Random, tier: str) -> Plan:
         elif r < 0.68:
             ops.append({"op": "save", "target": rng.choice(m.names), "slot": f"s{rng.randrange(3)}"})
         elif r < 0.76:
-            ops.append({"op": "load", "target": rng.choice(m.names), "slot": f"s{rng.randrange(3)}"})
+            ops.append({"op": "load", "target": rng.choice(m.names), "slot": f"s{rng.randrange(3)}",
+                        "assign": rng.random() < 0.2})
+        elif r < 0.79:
+            ops.append({"op": "foreign_compile", "target": rng.choice(m.names), "seed": _seed(rng),
+                        "flags": {"fold": rng.random() < 0.5, "optimize": rng.random() < 0.5}})
         elif r < 0.88 and m.nd < 6:
             d = _gen_derive(rng, m, domain=domain, poly=poly, allow_fault=faults)
             if d is not None:
@@ -602,7 +606,7 @@ def gen_c19(rng: random.Random, tier: str) -> Plan:
         if not slots:
             return None
         slot = rng.choice(sorted(slots))
-        return {"op": "load", "target": slots[slot], "slot": slot}
+        return {"op": "load", "target": slots[slot], "slot": slot, "assign": rng.random() < 0.3}
 
     def restart() -> dict[str, Any]:
         return {"op": "restart", "mode": rng.choice(["same", "rebuild"]), "seed": _seed(rng),
@@ -625,8 +629,11 @@ def gen_c19(rng: random.Random, tier: str) -> Plan:
             d = _gen_derive(rng, m, domain=domain, poly=poly, allow_fault=False)
             if d is not None:
                 ops.append(d)
-        elif r < 0.97:
+        elif r < 0.96:
             ops.append({"op": "mode", "target": rng.choice(m.names), "train": rng.random() < 0.4})
+        elif r < 0.98:
+            ops.append({"op": "foreign_compile", "target": rng.choice(m.names), "seed": _seed(rng),
+                        "flags": {"fold": rng.random() < 0.5, "optimize": rng.random() < 0.5}})
         else:
             ops.append({"op": "eval", "target": rng.choice(m.names), "batch": rng.choice([1, 2, 5]),
                         "seed": _seed(rng)})
@@ -638,9 +645,13 @@ def gen_c19(rng: random.Random, tier: str) -> Plan:
             ops.append(save())
         ops.append(mutate())
         ops.append(restart())
+        if rng.random() < 0.3:
+            ops.append({"op": "foreign_compile", "target": rng.choice(m.names), "seed": _seed(rng),
+                        "flags": {"fold": rng.random() < 0.5, "optimize": rng.random() < 0.5}})
         for slot in sorted(slots):
             if rng.random() < 0.8:
-                ops.append({"op": "load", "target": slots[slot], "slot": slot})
+                ops.append({"op": "load", "target": slots[slot], "slot": slot,
+                            "assign": rng.random() < 0.3})
         if rng.random() < 0.4 and m.nd < 6:
             d = _gen_derive(rng, m, domain=domain, poly=poly, allow_fault=False)
             if d is not None:
